@@ -8,7 +8,7 @@ VARIABLES phase, prog, style, k
 vars == <<phase, prog, style, k>>
 
 Dims == [sep |-> {"space", "tabs", "wide"}, indent |-> {"tab", "none", "mixed"}, comment |-> {"trailing", "line"},
-         blank |-> {"before"}, case |-> {"upper"}, regs |-> {"num", "fp"}, imm |-> {"hex", "HEX", "bin", "char"},
+         blank |-> {"before"}, case |-> {"upper", "capital", "mixed", "tail"}, regs |-> {"num", "fp"}, imm |-> {"hex", "HEX", "bin", "char"},
          label |-> {"same-line"}, zero_off |-> {"omit"}, pseudo |-> {"expand", "expand-mem", "expand-jr"}]
 Default == [sep |-> "comma", indent |-> "spaces", comment |-> "none", blank |-> "none", case |-> "lower", regs |-> "abi",
             imm |-> "dec", label |-> "own-line", zero_off |-> "keep", pseudo |-> "keep", sites |-> "all"]
